@@ -2037,7 +2037,13 @@ def _same(a, b, tol=1e-10):
         return a[1] == b[1]
     if a[0] == "seq":
         return len(a[1]) == len(b[1]) and all(_same(x, y, tol) for x, y in zip(a[1], b[1]))
-    return _close(a[1], b[1], tol)
+    x, y = np.asarray(a[1]), np.asarray(b[1])
+    if x.shape != y.shape:
+        return False
+    nx, ny = np.isnan(x), np.isnan(y)          # the same question may legitimately be answered nan twice
+    if not np.array_equal(nx, ny):
+        return False
+    return _close(np.where(nx, 0, x), np.where(ny, 0, y), tol)
 
 
 def gen_history(rng, rep, n, pure, length):
